@@ -2,7 +2,7 @@
    Only property theorems, each closed by quoting lemmas proved elsewhere, and Print Assumptions.
    Generated from Properties/bodies/C11.v.in by mkprop.py (shared preamble: hdr.txt, sec.txt). *)
 From Coq Require Import Arith NArith Bool List Lia.
-Require Import Canon SemTk CountTk TableProto BddBase BddIte BddCR BddSat BddCof BddCof2 BddCtor BddEval BddPaths BddPathsCount BddReach BddExport BddDot BddMinimal BddTerm BddTerm2 Glue Machine Reachable OpSpecs FuelMono FuelMono2.
+Require Import Canon SemTk CountTk TableProto BddBase BddIte BddCR BddSat BddCof BddCof2 BddCtor BddEval BddPaths BddPathsCount BddReach BddExport BddDot BddMinimal BddTerm BddTerm2 Glue Machine Reachable OpSpecs FuelMono FuelMono2 SpecCor.
 Import ListNotations.
 Local Open Scope N_scope.
 
@@ -54,6 +54,17 @@ Section C11.
     exists bound, forall fuel, (bound <= fuel)%nat -> mstep fuel mr (HRestrict f g) = None ->
       exists s', sext (store mr) s' /\ Inv s' /\ storage_full node (tbl s').
   Proof. exact (restrict_step_fuel_bound nhash khash bmask cmask0 smask0 capacity cap_ok mr f g rf rg). Qed.
+  (* the remaining named cases, on the specification: restrict(f,1) = f, 0 when g implies NOT f, and restrict by a cube is
+     the plain cofactor *)
+  Theorem C11_true_care_set vs (F : bfun) e : ext F -> restrict_spec vs F (fun _ => true) e = F e.
+  Proof. exact (restrict_true vs F e). Qed.
+  Theorem C11_zero_when_g_implies_not_f vs (F G : bfun) e : ext F -> ext G -> NoDup vs ->
+    (forall a, (forall w, ~ In w vs -> a w = e w) -> G a = true -> F a = false) -> unsat vs G e = false ->
+    restrict_spec vs F G e = false.
+  Proof. exact (restrict_zero_when_g_implies_not_f vs F G e). Qed.
+  Theorem C11_cube_is_cofactor vs (F : bfun) lits e : ext F -> NoDup vs -> NoDup (map fst lits) ->
+    (forall v, In v (map fst lits) -> In v vs) -> restrict_spec vs F (cubef lits) e = F (override e lits).
+  Proof. exact (restrict_cube vs F lits e). Qed.
 End C11.
 
 Print Assumptions C11_restrict.
@@ -63,3 +74,6 @@ Print Assumptions C11_commutes_with_negation.
 Print Assumptions C11_constant_f.
 Print Assumptions C11_false_care_set.
 Print Assumptions C11_restrict_fuel_bound.
+Print Assumptions C11_true_care_set.
+Print Assumptions C11_zero_when_g_implies_not_f.
+Print Assumptions C11_cube_is_cofactor.
